@@ -232,6 +232,9 @@ func profileConfig(p string, seed uint64) RunConfig {
 			// slow data plane against short PFCP timers: timers fire inside event-loop turns
 			c.RetransMs = 137
 			c.KernLatency = pick(r, 40, 150)
+			// ... into a short time-out queue: the callbacks of timers that expire while the
+			// loop is busy wait for room in it
+			c.Knobs["TRANS_TIMEOUT_CHANNEL_LEN"] = pick(r, 1, 2, 4, 64)
 		}
 		if r.IntN(4) == 0 {
 			// ticks whose query the data plane refuses, URR removals it refuses: periodic
@@ -714,7 +717,7 @@ func (g *Gen) rule(kind string, id uint32, update bool) RuleIntent {
 			if g.rich {
 				t = uint32(g.bv(24))
 			} else {
-				t = uint32(pick(g.rng, 0x2, 0x100, 0x102, 0x4, 0x202))
+				t = uint32(pick(g.rng, 0x2, 0x100, 0x102, 0x4, 0x202, 0x82, 0x180))
 			}
 			t &^= 1
 			if g.perioOK && g.chance(0.5) {
@@ -740,6 +743,13 @@ func (g *Gen) rule(kind string, id uint32, update bool) RuleIntent {
 				mi |= uint8(g.intn(16))
 			}
 			r.MInfo = &mi
+		}
+		if g.chance(0.25) {
+			// usage of this URR is also to be reported when a linked one reports (LIUSA):
+			// links to any id of the tiny range, itself included, so cycles come up
+			for i, n := 0, 1+g.intn(2); i < n; i++ {
+				r.Linked = append(r.Linked, uint32(1+g.intn(idRange["urr"])))
+			}
 		}
 		if g.chance(0.5) {
 			r.VolTh = &VolIntent{Flags: uint8(g.intn(8)), Tot: g.bv(64), UL: g.bv(64), DL: g.bv(64)}
@@ -811,6 +821,27 @@ func (g *Gen) estMsg(m *SMF, slot int) *MsgIntent {
 		// equal CP SEIDs across peers (never twice within one peer)
 		g.slotGen[[2]int{m.Idx, slot}]++
 		cp = uint64(0x10 + slot*64 + g.slotGen[[2]int{m.Idx, slot}]%64)
+	}
+	if g.chance(0.15) {
+		// a peer numbering its sessions from a small pool: the control-plane SEID of one
+		// of its own sessions that has ended (never one a live session of its still uses)
+		ended := g.s.model.ended
+		for i := len(ended) - 1; i >= 0 && i >= len(ended)-6; i-- {
+			e := ended[i]
+			if e.SMF != m.Idx || e.CP == 0 {
+				continue
+			}
+			inUse := false
+			for _, x := range g.s.model.sess {
+				if x.SMF == m.Idx && x.CP == e.CP {
+					inUse = true
+				}
+			}
+			if !inUse {
+				cp = e.CP
+				break
+			}
+		}
 	}
 	in := &MsgIntent{T: "est", Seq: g.seq(m), Slot: slot, CPSEID: cp}
 	for _, kind := range kinds {
